@@ -17,8 +17,8 @@ CHECKS = {
                 "imports first in a fresh interpreter (quick) and that for all pairs both orders succeed and end in the same state (thorough, "
                 "chunked kernel evaluation). The machine is tied to CPython by fresh-interpreter imports (verdict, loaded modules, bound names).",
         "note": "Trusted: Lean kernel (decide +kernel, no extra axioms), the ast-walking translator, the abstract import machine "
-                "(validated against real imports of all singles and sampled/all ordered pairs). The quantifier is finite, so the table "
-                "theorems are exhaustive; histories longer than two imports are not covered by a theorem.",
+                "(validated against real imports of all singles and sampled/all ordered pairs). The quantifier over modules is finite, so the table "
+                "theorems are exhaustive.",
         "technique": "translator-regenerated table + Lean 4 kernel evaluation (decide +kernel) + fresh-interpreter correspondence",
     },
     "C11": {
@@ -48,7 +48,7 @@ CHECKS = {
                 "The models are faithful character-level ports (index walkers, split, re-assembly, num_of_nls, textwrap.indent) tied to the code "
                 "by exact comparison on exhaustive short token strings, repo docstrings, mutants and generated header+section+footer documents; "
                 "the conversion clauses (header lines kept in order, no prose absorbed into a type/default) are evaluated on the real parser/emitter.",
-        "note": "Partial: the ordering start<=last of the two index walkers is observed (exhaustively on short strings), not proved; the parse-side "
+        "note": "Partial: the parse-side "
                 "absorption clause is checked on the real code only. Reading: the split identity is stated on the index pair because the function "
                 "returns the re-indented *current* section. Two known findings (ReST footer absorbed into the last :type/:rtype).",
         "technique": "Lean 4 proof (list prefix/suffix algebra over faithful string models) + exact differential correspondence",
@@ -271,3 +271,52 @@ for _pid, _t in EXTRA_TEXT.items():
     CHECKS[_pid]["text"] = CHECKS[_pid]["text"].rstrip() + " " + _t
 for _pid, _t in NOTE_OVERRIDE.items():
     CHECKS[_pid]["note"] = _t
+
+
+# ---- third session (2026-09-28): what each check proves in addition (appended to the texts above by tools/gen_manifest.py) ---------------------------------------------------
+_CONSTS = (" Constants tie: the values of the module-level constants the models copy are regenerated from the source on every run (Gen/Consts.lean) and the "
+           "tie theorems Gen.Consts.x = <model constant> of this property's models (Properties/ConstsTie/S*.lean) are obligations of this check.")
+ADDENDA = {
+    "C18": {"text": " Added: Properties/C18Hist.lean lifts the single-import theorem to EVERY finite import history of public modules, any length, repetitions allowed "
+                    "(all_histories_ok), from a generic theorem (any table: static_ok and all singles imply all histories) proved by a monotone simulation on the import machine; "
+                    "static_ok is a decidable condition on the regenerated table checked by kernel evaluation, shown necessary by a counterexample table.",
+            "note": " The history theorem removes the earlier limit to one or two imports; its static side condition (no package body binds the short name of one of its own "
+                    "submodules) is stronger than necessary, so a harmless `from . import sub` in an __init__ would break the obligation without a failing import. "
+                    "The check also runs random real histories of 3-8 modules."},
+    "C10": {"text": " Added: Model/JoinNonNone.lean + Properties/C10Join.lean model _join_non_none (the set iteration inside ir_merge) with the iteration order as an oracle: the result "
+                    "as a mapping is order-independent, its key order is characterised exactly and can differ iff two fresh keys exist (witness); tied to the real function by forcing the "
+                    "iteration order. The site digest of a set bound to a name now includes its order-preserving consumers; the differential also varies which package modules were "
+                    "imported earlier in the process." + _CONSTS, "note": ""},
+    "C15": {"text": " Added: Properties/C15All.lean — for EVERY string: index ranges of both walkers, the exact condition under which _get_token_last_idx raises, the three exits of "
+                    "`last`, and a decidable condition Ordered that implies start <= last and hence the partition, each of its clauses shown necessary by a witness that also fails on the "
+                    "real walkers." + _CONSTS,
+            "note": " The ordering is now proved for every string satisfying the decidable condition Ordered (sufficient, not necessary; an exact characterisation is open); `last` may "
+                    "exceed the length by up to 2 on the NumPy dashes exit (proved witnesses)."},
+    "C14": {"text": " Added: Properties/C14Iface.lean and C14SqlJson.lean — for every input of the class / function / argparse / SQLAlchemy / JSON-schema MODEL parsers: exact key lists, "
+                    "names pairwise distinct (given well-formed docstring-layer answers, which C14/C14GN prove for the docstring models, and CPython's distinct argument names), no leading "
+                    "star, signature completeness and the exact order law, non-empty present types; the negation witnesses are replayed on the real parsers in every run." + _CONSTS,
+            "note": " The clause 'a type parses as a Python expression' is still evaluated on real outputs only."},
+    "C08": {"text": " Added: Properties/C08Iface.lean — for the class / pydantic / function / argparse hops of the C02 interface model one round is a fixpoint of the compared view for "
+                    "every number of rounds under the residual hypothesis DocLayerStable (shown necessary), a hop has a closed form whose fixed points are decidable, and the header drifts "
+                    "are proved as negations; Properties/C02Rest.lean discharges the residual hypothesis for the concrete ReST docstring layer on the region DomR (C08Rest_rounds)." + _CONSTS,
+            "note": ""},
+    "C12": {"text": " Added: Properties/C12Iface.lean instantiates the abstract emitters/parsers of the sync model with the C02 interface model: name/kind laws for every interface, the "
+                    "round-trip law on the C02 domain from the C02 theorems; the congruence law is proved false for view equality and survives as one decidable instance needed only for "
+                    "idempotence with a class truth. The check now also compares the descriptions of every written target with the truth's (both read with the stdlib).", "note": ""},
+    "C02": {"text": " Added: Properties/C02Rest.lean — the docstring layer, so far a parameter, is instantiated by the character-level ReST model of C01 (restEnv): on the decidable "
+                    "region InRest the four round-trip theorems hold with no hypothesis about the docstring layer (CPython's expression parser stays a parameter)." + _CONSTS,
+            "note": " Outside InRest (Google/NumPy styles, emit_default_doc=True, multi-line headers, class return entries) the docstring layer remains a parameter whose answers the "
+                    "harness evaluates per case; the composed model was compared with the real emitter/readers by hand only."},
+    "C03": {"text": " Added: closure of the region under hops is reduced to the docstring layer (C08Iface.hop_keeps_inD02 proved, residue DocLayerStable shown necessary) and discharged "
+                    "for the concrete ReST layer on DomR (C02Rest.C03Rest_chain: every chain of class / pydantic / function / argparse hops of any length succeeds and preserves the view; "
+                    "only hypothesis: the expression parser rejects code-quoted text)." + _CONSTS, "note": ""},
+    "C01": {"text": _CONSTS + " A dictionary-guided search works strings by which the current constants differ from the snapshot of the unchanged tree into generated descriptions, so a "
+                    "changed constant table usually yields a concrete failing input.", "note": ""},
+    "C11": {"text": _CONSTS, "note": ""}, "C09": {"text": _CONSTS, "note": ""}, "C07": {"text": _CONSTS, "note": ""}, "C17": {"text": _CONSTS, "note": ""},
+    "C04": {"text": _CONSTS, "note": ""}, "C05": {"text": _CONSTS, "note": ""}, "C06": {"text": _CONSTS, "note": ""}, "C19": {"text": _CONSTS, "note": ""},
+    "C13": {"text": " The check also runs the same call twice in one process on the same unmodified input (the second output must equal the first).", "note": ""},
+    "C20": {"text": " The check also calls exmod twice in one process (a dry-run preview, then a real run that blacklists part of the package): the second call must do what it does alone.", "note": ""},
+}
+for _k, _v in ADDENDA.items():
+    CHECKS[_k]["text"] += _v["text"]
+    CHECKS[_k]["note"] += _v["note"]
